@@ -381,8 +381,6 @@ func (c *treeChecker) shape(n Node) {
 		if len(s) >= 1 {
 			bs := s[0] == '\\'
 			switch len(s) {
-			case 1:
-				ok = bs
 			case 2:
 				ok = vand(bs, vor(s[1] == '\n', s[1] == '\r'))
 			case 3:
